@@ -137,6 +137,8 @@ class CoopLock:
     return ok
   def release(self):
     self.owner = None
+    if controlled():
+      SCHED.yield_('lock.release')
   def locked(self):
     return self.owner is not None
   __enter__ = acquire
@@ -227,6 +229,8 @@ def install(s):
   threading.Thread.join = t_join
   threading.Thread.is_alive = t_alive
   time.time, time.monotonic, time.sleep = v_time, v_mono, v_sleep
+  import queue as _q
+  _q.time = v_mono; threading._time = v_mono
   ctypes.pythonapi.PyThreadState_SetAsyncExc = _AsyncExcShim(
       ctypes.pythonapi.PyThreadState_SetAsyncExc)
 
@@ -240,6 +244,8 @@ def uninstall():
   threading.Thread.join = _real_join
   threading.Thread.is_alive = _real_alive
   time.time, time.monotonic, time.sleep = _real_time, _real_mono, _real_sleep
+  import queue as _q
+  _q.time = _real_mono; threading._time = _real_mono
   ctypes.pythonapi.PyThreadState_SetAsyncExc = (
       ctypes.pythonapi.PyThreadState_SetAsyncExc.real)
   SCHED = None
